@@ -441,7 +441,7 @@ def judge_literal(spec, rec):
 BINOPS = {'+', '-', '—', '*', '/', '^', '||'}
 FOREIGN = ['$', '×', '²', '#', '!', '&', '=', '?', '@', '~', '`', '"', ';', ':', '\\', '٣', '２',
            'é', ' ', '\x0b', '−', '÷', '<', '>', '‖']
-MUTS = ['double-op', 'juxtapose', 'empty-paren', 'empty-array', 'empty-call', 'lead-op', 'trail-op', 'comma',
+MUTS = ['tab-in-token', 'double-op', 'juxtapose', 'empty-paren', 'empty-array', 'empty-call', 'lead-op', 'trail-op', 'comma',
         'foreign', 'dotdot', 'lone-dot', 'exp-plus', 'double-neg', 'drop-close', 'extra-open', 'extra-close',
         'wrong-close']
 
@@ -463,6 +463,19 @@ def mutate_tokens(toks, mut, pos, pick):
     n = len(toks)
     binpos = [i for i, t in enumerate(toks) if t in BINOPS and i > 0 and toks[i - 1] not in BINOPS
               and toks[i - 1] not in ('(', '[', ',', '^')]
+    if mut == 'tab-in-token':
+        # a tab / line break INSIDE a number or name is juxtaposition, never grammatical (only U+0020 is stripped)
+        cand = [i for i, t in enumerate(toks) if len(t) >= 2 and (t[0].isalnum() or t[0] == '.') and t != '||']
+        if not cand:
+            return None
+        i = cand[pos % len(cand)]
+        t = toks[i]
+        cut = 1 + pick % (len(t) - 1)
+        if t[cut - 1] in '_^{' or t[cut] in '_^{}\'':
+            return None
+        if not t[0].isalpha() and not (t[cut - 1] in '0123456789.' and t[cut] in '0123456789.'):
+            return None     # whitespace between a number and its suffix is grammatical; stay inside the digits
+        return toks[:i] + [t[:cut] + ['\t', '\n', '\r\n'][pick % 3] + t[cut:]] + toks[i + 1:]
     if mut == 'double-op':
         if not binpos:
             return None
@@ -530,6 +543,8 @@ def judge_invalid(spec, rec):
         raise Discard('mutation-not-applicable')
     s = (' ' if spec['ws'] else '').join(bad)
     env = X.default_env([[1.3, 0.0]] * len(X.VAR_NAMES))
+    # history: the grammatical original is evaluated first (a lossy parse cache would then serve the broken string)
+    lib_eval(''.join(toks), env, {})
     kind, out = lib_eval(s, env, {})
     rec.calls()
     rec.cls('invalid/judged')
